@@ -362,7 +362,7 @@ def run_chunk(chunk):
                 for system in systems:
                     if system == 'topdown' and not cont:
                         continue
-                    for order in (None, 'rev', 'export', 'tiger'):
+                    for order in (None, 'rev', 'export', 'tiger', 'written'):
                         vs = check_one(j, system, order)
                         res.evals += 1
                         if mt.n() >= 2 and (k > 0 or not cont or any(c == 1 for c in choice.values())):
